@@ -495,6 +495,36 @@ def rxmap(n: int, c1: int, c2: int, c3: int, c4: int, upd: bool) -> None:
 rxmap.ranges = lambda consts: dict(c1=(0, 2), c2=(0, 2), c3=(0, 2), c4=(0, 2))
 
 
+def noloop(k1: int, k2: int, k3: int, n: int) -> None:
+    """No event loop is running: an awaitable handed to the parameter is evaluated to completion during the assignment
+    itself, so after every assignment the parameter holds the result of the latest one (coroutine function, two-value
+    async generator function or plain value)."""
+    with untraced():
+        p = P()
+    exp = None
+    for step, k in enumerate((k1, k2, k3)[:n]):
+        k = pick(k, 0, 2)
+        tag = 'v%d' % step
+        if k == 0:
+            async def coro(tag=tag):
+                return tag + 'c'
+            p.x = coro
+            exp = tag + 'c'
+        elif k == 1:
+            async def gen(tag=tag):
+                yield tag + 'g0'
+                yield tag + 'g1'
+            p.x = gen
+            exp = tag + 'g1'
+        else:
+            p.x = tag + 'p'
+            exp = tag + 'p'
+        check('C10.reeval_latest', p.x == exp, {'no_event_loop': True, 'step': step, 'kind': k, 'got': repr(p.x), 'exp': exp})
+
+
+noloop.ranges = lambda consts: dict(k1=(0, 2), k2=(0, 2), k3=(0, 2))
+
+
 def rxprog(n: int, c1: int, c2: int, c3: int) -> None:
     """src = rx(1); out = src.rx.pipe(slow); n-1 further root updates; completions in a solver-chosen order."""
     state = {}
@@ -571,6 +601,7 @@ def shards(tier):
         out.append(dict(name='rx2_%d' % watch, module='harness.c10', fn='rx2', consts=dict(watch=watch, n=3), budget_s=60 if q else 300))
     for n in (2, 3):
         out.append(dict(name='rxmap_n%d' % n, module='harness.c10', fn='rxmap', consts=dict(n=n), budget_s=60 if q else 300))
+    out.append(dict(name='noloop', module='harness.c10', fn='noloop', consts=dict(n=3), budget_s=60 if q else 300))
     out.append(dict(name='rxgen', module='harness.c10', fn='rxgen', consts={}, budget_s=60 if q else 300))
     for n in (2, 3):
         out.append(dict(name='rx_n%d' % n, module='harness.c10', fn='rxprog', consts=dict(n=n), budget_s=60 if q else 300))
@@ -579,4 +610,4 @@ def shards(tier):
 
 def bounds(tier):
     return dict(assignments='2 and 3', kinds=['coroutine function', 'two-value async generator', 'plain value'],
-                completion_steps=5, same_function_object_reassigned=[False, True], rx_pipeline_updates='2 and 3', rx_two_stage_steps=4, reads_between_completions='symbolic', rx_map='2 and 3 items, completion order symbolic, optional replacement of the collection')
+                completion_steps=5, same_function_object_reassigned=[False, True], rx_pipeline_updates='2 and 3', rx_two_stage_steps=4, reads_between_completions='symbolic', without_event_loop='3 assignments of symbolic kind', rx_map='2 and 3 items, completion order symbolic, optional replacement of the collection')
